@@ -188,3 +188,4 @@ def mu_run(E, kind, inner):
         E.eq(K0.factor_matrices[n], snap[1][n], "caller's guess: factors unchanged")
     E.true(Minit is K0, "the returned initial guess is the one passed")
     E.eq(O.den(X), xc, "data unchanged")
+
